@@ -223,3 +223,32 @@ func scaleJSON(b []byte, v any) []byte {
 	}
 	panic(fmt.Sprintf("gens.ScaleJSON: unexpected %T", v))
 }
+
+// WideDocs are the documents of the JSONPath checks that put more entries on an
+// evaluator's stack than the 64 it starts with while other containers are still
+// waiting below: a list of 66 objects and a list of 66 numbers, each with a
+// short sibling before and after it (what is pending when the stack is grown
+// must still be there afterwards), as array elements and as object members.
+func WideDocs() []any {
+	objs := func(n int) []any {
+		a := make([]any, n)
+		for i := range a {
+			a[i] = map[string]any{"x": int64(i % 3)}
+		}
+		return a
+	}
+	nums := func(n int) []any {
+		a := make([]any, n)
+		for i := range a {
+			a[i] = int64(i % 3)
+		}
+		return a
+	}
+	short := func() []any { return []any{map[string]any{"x": int64(1)}, map[string]any{"x": int64(2)}} }
+	return []any{
+		[]any{short(), objs(66), short()},
+		map[string]any{"a": objs(66), "x": short()},
+		[]any{[]any{int64(1), int64(2)}, nums(66), []any{int64(2), int64(1)}},
+		[]any{map[string]any{"a": nums(66)}, map[string]any{"a": []any{int64(1)}}, map[string]any{"x": nums(65)}},
+	}
+}
